@@ -11,5 +11,5 @@ Extraction "model.ml"
   Ident.Names.parse_pwb Ident.Names.parse_trg Ident.Names.parse_trb3 Ident.Names.parse_mcvx
   Ident.Names.parse_cb Ident.Names.parse_seq2 Ident.Names.chan_obs Ident.Names.a16_row Ident.Names.pwb_row
   Ident.Names.cb_row Ident.Names.from_str_radix_u8
-  Ident.Maps.wire_dispatch Ident.Maps.pwb_dispatch Ident.Maps.wire_table_obs Ident.Maps.pad_table_obs
-  Ident.Maps.wpos_obs Ident.Maps.ppos_obs Ident.Maps.wcol_obs Ident.Maps.pad_column_to_wires.
+  Ident.Maps.wire_dispatch_req Ident.Maps.pwb_dispatch_req Ident.Maps.wire_table_obs_req Ident.Maps.pad_table_obs_req
+  Ident.Maps.wpos_obs_req Ident.Maps.ppos_obs_req Ident.Maps.wcol_obs Ident.Maps.pad_column_to_wires.
